@@ -10,8 +10,8 @@ Plain(d, eqc, eqpost) == [name |-> d.name, hasval |-> d.hasval, val |-> d.val, c
 Canon(c) == [dirs |-> [i \in 1..Len(c.dirs) |-> Plain(c.dirs[i], c.eq, c.eqpost)], sep |-> c.sep, gap |-> c.gap, dbl |-> 0, trail |-> FALSE, tail |-> c.tail,
              fixed |-> c.fixed, caseskip |-> c.caseskip, bareunknown |-> c.bareunknown]
 Acts(c) == Allowed(c.type) \cap {"name-case", "ows", "edge-ws", "eq-ws", "empty", "trail", "order", "quote", "unknown", "val-ws"}
-One(c) == UNION {{[path |-> <<a>>, s |-> t] : t \in Act(a, Canon(c))} : a \in Acts(c)}
-Two(c) == UNION {UNION {{[path |-> <<x.path[1], a>>, s |-> t] : t \in Act(a, x.s)} : a \in Acts(c) \ {x.path[1]}} : x \in One(c)}
+One(c) == UNION {{[path |-> <<x.lab>>, act |-> a, s |-> x.s] : x \in Act(a, Canon(c))} : a \in Acts(c)}
+Two(c) == UNION {UNION {{[path |-> <<x.path[1], y.lab>>, act |-> a, s |-> y.s] : y \in Act(a, x.s)} : a \in Acts(c) \ {x.act}} : x \in One(c)}
 Out(c, i) == {[id |-> i, type |-> c.type, path |-> x.path, text |-> Render(x.s)] : x \in One(c) \cup (IF c.deep THEN Two(c) ELSE {})}
              \cup {[id |-> i, type |-> c.type, path |-> <<"canonical">>, text |-> Render(Canon(c))]}
 All == UNION {Out(In[i], i) : i \in 1..Len(In)}
